@@ -18,25 +18,12 @@ theorem Ethernet_pack_idempotent (s : Eth) (fcs : Bool) : Eth.pack (Eth.pack s f
 theorem Ethernet_unpack_state_independent (t u : Eth) (buf : Bytes) (fcs : Bool)
     (h : (Eth.unpack t buf fcs).2 = .ok ()) : Eth.unpack t buf fcs = Eth.unpack u buf fcs := by
   by_cases hl : buf.length < 14
-  · rw [C08_short t buf fcs hl] at h; simp at h
+  · rw [Eth_unpack_short t buf fcs hl] at h; simp at h
   · rw [Eth_unpack_eq t _ _ (by omega), Eth_unpack_eq u _ _ (by omega)] at *
     revert h
     simp only [ethFinish]
     repeat' split
     all_goals simp
-where
-  C08_short (t : Eth) (buf : Bytes) (fcs : Bool) (h : buf.length < 14) : (Eth.unpack t buf fcs).2 = .error .struct := by
-    by_cases h6 : buf.length < 6
-    · rw [Eth.unpack, unpack48_error _ (by simp; omega)]
-    · by_cases h12 : buf.length < 12
-      · rw [Eth.unpack, unpack48_eq _ (by simp; omega)]
-        simp only
-        rw [unpack48_error _ (by simp; omega)]
-      · rw [Eth.unpack, unpack48_eq _ (by simp; omega)]
-        simp only
-        rw [unpack48_eq _ (by simp; omega)]
-        have : ¬ (12 + (2 + 0) ≤ buf.length) := by omega
-        simp [structUnpackFrom, Eth_unpack_fmt0, Fmt.size, codesSize, Code.size, this]
 
 /-! ### IP -/
 /-- the only field `pack` writes is the computed total length (and nothing at all when an address is unusable) -/
